@@ -7,7 +7,8 @@ NEEDS = json.load(open(os.path.join(ROOT, "tools", "seed_needs.json")))
 
 def main(tag):
     pid, n = tag.split("-")
-    src = "/tmp/seed/%s/mutant_%s" % (pid, n)
+    off = int(os.environ.get("SEED_NUM_OFFSET", "0"))
+    src = "%s/%s/mutant_%d" % (os.environ.get("SEED_ROOT", "/tmp/seed"), pid, int(n) - off)
     dst = os.path.join(ROOT, "seeded", tag)
     os.makedirs(dst, exist_ok=True)
     for f in ("patch.diff", "demo.py", "README.txt"):
